@@ -13,6 +13,7 @@ import (
 func init() {
 	verifRegister("VerifC12Local", VerifC12Local)
 	verifRegister("VerifC12Arrays", VerifC12Arrays)
+	verifRegister("VerifC12Table", VerifC12Table)
 }
 
 type verifGenTL1 interface {
@@ -73,3 +74,6 @@ func verifC12(canonical string, g verifGenTL1) {
 
 func VerifC12Local()  { verifC12("f02.local", &gen.F02Local{}) }
 func VerifC12Arrays() { verifC12("f04.arrays", &gen.F04Arrays{}) }
+
+// vector of structs that take a # parameter and pass DIFFERENT nat arguments to their fields (per-element nat-argument stack)
+func VerifC12Table() { verifC12("c12.table", &gen.C12Table{}) }
